@@ -23,6 +23,16 @@ func helper(in uint64, b uint) {
 	}
 }
 
+func seqN(n int) func(func(int) bool) {
+	return func(yield func(int) bool) {
+		for i := 0; i < n; i++ {
+			if !yield(i) {
+				return
+			}
+		}
+	}
+}
+
 func try(fn int, in uint64, f func(uint64) int) {
 	defer func() {
 		r := recover()
@@ -45,6 +55,9 @@ class FnGen:
         self.defers = {}             # j -> {"line":..., "variant":...}
         self.extra = []              # argless per-site functions
         self.loopvars = 0
+        self.in_rf = False           # inside a range-over-func body
+        self.own_defers = 0          # defer statements outside range-over-func bodies
+        self.has_rf = False
 
     def emit(self, ind, s):
         self.lines.append("\t" * ind + s)
@@ -59,6 +72,10 @@ class FnGen:
         j = self.ndefer
         self.ndefer += 1
         r = self.rng.random()
+        if self.in_rf:
+            r *= 0.80                # plain variants only: the statement position is shared by all defers of the body
+        else:
+            self.own_defers += 1
         fn = self.fn
         if r < 0.40:
             p = "%d+%s" % (100 * (j + 1), loopvar) if loopvar else str(7 + j)
@@ -101,6 +118,22 @@ class FnGen:
                     self.emit(ind, "} else {")
                     self.block(ind + 1, depth + 1, loopvar, self.rng.randrange(1, 3))
                 self.emit(ind, "}")
+            elif r < 0.56 and r >= 0.48 and nested_ok and not self.in_rf:
+                # range-over-func: the defers of the body belong to this function and run when it returns
+                lv = "r%d" % self.loopvars
+                self.loopvars += 1
+                b = self.bit()
+                self.bit()
+                self.emit(ind, "for %s := range seqN(int(in>>%d) & 3) {" % (lv, b))
+                self.emit(ind + 1, "_ = %s" % lv)
+                self.in_rf = True
+                self.has_rf = True
+                n0 = self.ndefer
+                self.block(ind + 1, depth + 1, lv, self.rng.randrange(1, 4))
+                if self.ndefer == n0:
+                    self.defer_stmt(ind + 1, lv)
+                self.in_rf = False
+                self.emit(ind, "}")
             elif r < 0.48 and nested_ok:
                 lv = "i%d" % self.loopvars
                 self.loopvars += 1
@@ -130,7 +163,9 @@ class FnGen:
     def gen(self):
         self.emit(0, "func f%d(in uint64) (res int) {" % self.fn)
         self.block(1, 0, None, self.rng.randrange(3, 8))
-        if self.ndefer == 0:
+        if self.own_defers == 0:
+            # (a function whose only defers sit in range-over-func bodies is the listed finding
+            # rangefunc-only-defers-lose-named-result-changes: probed separately)
             self.defer_stmt(1, None)
         self.emit(1, "return res + 1")
         self.emit(0, "}")
